@@ -59,3 +59,43 @@ func tryReplay(eng *Engine, outDir, prop string, o *Obligation) (bool, string) {
 	}
 	return false, detail
 }
+
+// runAudits (thorough tier): the bounded audits of assumed library contracts and axioms (/verif/audit), injected
+// into internal/proxy with `go test -overlay`. Returns one record per audit and the failure output, if any.
+func runAudits(outDir string) ([]map[string]interface{}, string) {
+	vd := verifDir()
+	src := filepath.Join(vd, "audit", "assumptions_test.go")
+	if _, err := os.Stat(src); err != nil {
+		return nil, ""
+	}
+	repo := repoDir()
+	dst := filepath.Join(repo, "internal", "proxy", "zz_verif_audit_test.go")
+	ob, _ := json.Marshal(map[string]map[string]string{"Replace": {dst: src}})
+	os.MkdirAll(filepath.Join(outDir, "replay"), 0o755)
+	ovFile := filepath.Join(outDir, "replay", "overlay_audit.json")
+	os.WriteFile(ovFile, ob, 0o644)
+	ctx, cancel := context.WithTimeout(context.Background(), 300*time.Second)
+	defer cancel()
+	cmd := exec.CommandContext(ctx, "go", "test", "-overlay", ovFile, "-vet=off", "-count=1", "-timeout", "240s", "-run", "^TestVerifAudit", "-v", "./internal/proxy")
+	cmd.Dir = repo
+	cmd.Env = append(os.Environ(), "GOFLAGS=-mod=mod", "GOPROXY=off", "GOSUMDB=off", "GOTOOLCHAIN=local")
+	var buf bytes.Buffer
+	cmd.Stdout, cmd.Stderr = &buf, &buf
+	err := cmd.Run()
+	out := buf.String()
+	var recs []map[string]interface{}
+	for _, l := range strings.Split(out, "\n") {
+		if i := strings.Index(l, "AUDIT "); i >= 0 {
+			rest := l[i+6:]
+			if j := strings.LastIndex(rest, " cases="); j > 0 {
+				n := 0
+				fmt.Sscanf(rest[j+7:], "%d", &n)
+				recs = append(recs, map[string]interface{}{"assumption": rest[:j], "cases": n, "kind": "bounded audit against the real library (random inputs, fixed seed); not a proof"})
+			}
+		}
+	}
+	if err != nil {
+		return recs, firstLines(out, 40)
+	}
+	return recs, ""
+}
